@@ -91,6 +91,27 @@ INFO = {
     "C18-m4": ("C18", "written += n moved before the error check after writePacketAdaptationField", "writer failing inside an adaptation field: reported count exceeds bytes handed to the writer"),
     "C20-m3": ("C20", "pool's last-accumulator shortcut not cleared by Rewind's in-place reset", "stream starting with PES packets of one PID and a Rewind right after a NextData triggered by that PID's PUSI packet"),
     "C20-m4": ("C20", "Rewind replaces the program map after giving the old one to the new pool", "any Rewind followed by a full read: PMT PIDs not recognised as PSI until end-of-stream (order/values differ)"),
+    # round 4 (third pair for the ten properties that had no round 3; same brief as round 3)
+    "C01-m5": ("C01", "WriteData no longer resets StuffingLength in the caller's adaptation field", "the same PacketAdaptationField struct handed to successive WriteData calls, the earlier PES ending in its first packet"),
+    "C01-m6": ("C01", "ISO 639 descriptor Language parsed without copy (aliases the pooled payload buffer)", "a PMT with a language descriptor inspected after later NextData calls"),
+    "C02-m5": ("C02", "eager PSI completion widened to the DVB SI PIDs", "SI unit (SDT/EIT/...) of >= 2 sections with a packet boundary exactly at the end of a non-last section, or a first packet holding only the pointer_field"),
+    "C02-m6": ("C02", "PES.Data parsed without copy (aliases the pooled payload buffer)", "a PES kept by the caller while NextData is called again"),
+    "C04-m5": ("C04", "WriteData returns n instead of bytesWritten when the adaptation-only packet is refused", "a WriteData rejected for an adaptation field > 184 bytes in a call in which tables were due (376 bytes already written, 0 reported)"),
+    "C04-m6": ("C04", "writePacket pre-check forgets the sync byte (available = size - 3)", "WritePacket oversize by exactly one byte: header bytes reach the writer before the late check refuses"),
+    "C06-m5": ("C06", "continuity distance masked with 0x7", "a burst of exactly 8 lost packets on a PES PID: spliced unit"),
+    "C06-m6": ("C06", "isPESPayload checks only the third byte of the start code", "loss of the PUSI packet of a PES unit whose next packet starts xx yy 01 + a plausible header"),
+    "C09-m5": ("C09", "CRC bytes reserved only when section_length >= 4 + CRC checked only when the offsets differ", "section_length corrupted to exactly 1..3: table delivered without CRC check"),
+    "C09-m6": ("C09", "supplementary audio length counts len(LanguageCode) instead of 3", "extension descriptor 0x7f/0x06 with a language code that is not 3 bytes long: section_length / CRC position wrong"),
+    "C12-m5": ("C12", "calcPESOptionalHeaderDataLength counts extension sub-fields even when HasExtension is false", "optional header with HasExtension=false and a sub-field flag (private data, sequence counter, P-STD, extension 2) set in the struct"),
+    "C12-m6": ("C12", "parsePESData rejects dataEnd == dataStart", "a PES with header only (zero payload bytes)"),
+    "C13-m5": ("C13", "updateData stops at the first PAT section of a unit", "a PAT unit of >= 2 sections and a PMT announced only by a later section: PMT never decoded"),
+    "C13-m6": ("C13", "parseDVBTime year constant 15078.2 -> 15078", "EIT/TOT times on 29 February: decoded as 2 March"),
+    "C14-m5": ("C14", "parseDescriptors loop guard Offset()+2 < offsetEnd", "a zero-length descriptor at the end of its loop: dropped, the following entries mis-parsed"),
+    "C14-m6": ("C16", "ISO 639 descriptor Language parsed without copy (asked for C14: the decoded value is right when returned, what breaks is that it changes later - C16's subject)", "a PMT with a language descriptor kept while NextData is called again"),
+    "C17-m5": ("C17", "WriteTables rollback snapshot reads patVersion twice", "PMT version >= 1, then a failed emission, then a successful one: version repeats or goes back"),
+    "C17-m6": ("C17", "initial retransmit counter set before the options run", "MuxerOptTablesRetransmitPeriod >= 42 and a first unit without random-access on the PCR PID: no tables before the first PES"),
+    "C19-m5": ("C19", "DemuxerOptPacketSize creates the packet buffer at once, capturing the skipper set so far", "explicit packet size option given before the skipper option"),
+    "C19-m6": ("C19", "parseData appends the default PES data to what the parser returned", "a parser returning data with skip=false on a PES unit"),
 }
 REVERTS = {
     "R01": "C12", "R02": "C14", "R03": "C14", "R04": "C18", "R05": "C17", "R06": "C04", "R07": "C11", "R08": "C05", "R09": "C06",
